@@ -124,6 +124,9 @@ class Engine(EngineBase):
                 uniq.append(jb)
         sc["jobs"] = uniq
         sc["new_sp"] = new_sp
+        # a persistent state point cache written before the operation: what the restarted session
+        # reports must not depend on it
+        sc["cache"] = rng.choice(["none", "none", "file"])
         return sc
 
     def _files(self, rng):
@@ -193,6 +196,9 @@ class Engine(EngineBase):
             write_payload(job.path, {f: f"MARK:{i}:{f}\n" * 3 for f in jb["files"]})
             lin[i] = {"sps": [jb["sp"]], "proj": jb["proj"], "id": cid(jb["sp"]), "files": jb["files"],
                       "doc": jb["doc"]}
+        if sc.get("cache") == "file":
+            for p in projects:
+                p.update_cache()
         kind = sc["op"][0]
         if sc["dest"] == "empty" and sc.get("new_sp") is not None:
             tp = pps[1] if kind in ("move", "clone") else pps[0]
